@@ -132,6 +132,12 @@ class Gen:
         if allow.get("sshot") and r < 0.60 and rng.random() < 0.2:
             # a node with an active input that asks for one wake-up in start() through the stateless SingleShotScheduler
             return self.add(dict(name=self.name(), kind="sshot", args=self.pick(1), at=rng.randint(self.start + 1, self.start + 12), id=self.nid()))
+        if allow.get("lift") and r < 0.60 and getattr(self, "n_lift", 0) < 4 and rng.random() < 0.5:
+            # a scalar function lifted with lift<F>() (its own evaluator, values only); at most four per program (slot table)
+            k = getattr(self, "n_lift", 0)
+            self.n_lift = k + 1
+            args = [a.lstrip("~") for a in self.pick(2)]
+            return self.add(dict(name=self.name(), kind="lift2", args=args, k=k, id=self.nid()))
         if r < 0.60:
             return self.add(dict(name=self.name(), kind="accum", args=self.pick(1), id=self.nid()))
         if r < 0.63:
